@@ -156,23 +156,26 @@ func runC17(c *Ctx) {
 	ds := p.MustMethod("server", "Sender", "doSign")
 	{
 		var why []string
-		// the snapshot parameter by type (the signer may be a method of the Sender or a function with explicit dependencies)
-		snapI := -1
-		for i, par := range ds.Params {
-			if namedIs(par.Type(), "protocol", "Snapshot") {
-				snapI = i
-			}
-		}
+		// the signing site by role: whatever function holds the Signer.Sign call (a helper, a plain function
+		// with explicit dependencies, or the batcher itself). The snapshot is "what is rendered for signing";
+		// the pairing is checked on the SignedSnapshot built from it, wherever in that function it is built.
 		hasSenderRecv := len(ds.Params) > 0 && namedIs(ds.Params[0].Type(), "server", "Sender")
 		calls := callsIn(ds, func(k *ssa.CallCommon) bool { return k.IsInvoke() && k.Method.Name() == "Sign" })
 		if len(calls) != 1 {
 			why = append(why, fmt.Sprintf("%d Sign calls", len(calls)))
 		} else {
 			msg := p.TermOf(callCommon(calls[0]).Args[0])
-			whole := msg.Op == "call" && msg.Fn != nil && strings.HasPrefix(msg.Fn.Name(), "Sprint") && msg.Has(func(x *Term) bool { return x.Op == "list" && len(x.Args) == 1 && x.Args[0].IsParam(ds, snapI) })
-			if !whole {
-				// any rendering of the whole snapshot value (not of selected fields)
-				whole = msg.Has(func(x *Term) bool { return x.IsParam(ds, snapI) }) && !msg.Has(func(x *Term) bool { return x.Op == "field" && x.Args[0].IsParam(ds, snapI) })
+			// the snapshot value: the single *protocol.Snapshot-typed term rendered as a whole
+			var snap *Term
+			msg.HasLocal(func(x *Term) bool {
+				if x.Op == "list" && len(x.Args) == 1 && x.Args[0].V != nil && namedIs(x.Args[0].V.Type(), "protocol", "Snapshot") {
+					snap = x.Args[0]
+				}
+				return false
+			})
+			whole := snap != nil && msg.Op == "call" && msg.Fn != nil && strings.HasPrefix(msg.Fn.Name(), "Sprint")
+			if snap != nil && !whole {
+				whole = !msg.Has(func(x *Term) bool { return x.Op == "field" && x.Args[0].String() == snap.String() })
 			}
 			if !whole {
 				why = append(why, "the signed bytes are "+msg.String()+", not a rendering of the whole snapshot")
@@ -182,16 +185,18 @@ func runC17(c *Ctx) {
 			}
 			// pairing
 			ok := false
-			for _, rt := range p.ReturnTerms(ds) {
-				if al, isAl := rt[0].V.(*ssa.Alloc); isAl {
-					_, bf := p.storesTo(al)
-					if len(bf["Snapshot"]) == 1 && len(bf["Signature"]) == 1 {
-						if p.TermOf(bf["Snapshot"][0]).IsParam(ds, snapI) && p.TermOf(bf["Signature"][0]).Has(func(x *Term) bool { return x.V == calls[0].(ssa.Value) }) {
-							ok = true
-						}
+			eachInstr(ds, func(in ssa.Instruction) {
+				al, isAl := in.(*ssa.Alloc)
+				if !isAl || !namedIs(deref(al.Type()), "protocol", "SignedSnapshot") || snap == nil {
+					return
+				}
+				_, bf := p.storesTo(al)
+				if len(bf["Snapshot"]) == 1 && len(bf["Signature"]) == 1 {
+					if p.TermOf(bf["Snapshot"][0]).String() == snap.String() && p.TermOf(bf["Signature"][0]).Has(func(x *Term) bool { return x.V == calls[0].(ssa.Value) }) {
+						ok = true
 					}
 				}
-			}
+			})
 			if !ok {
 				why = append(why, "the result does not pair the signature with the snapshot it was computed from")
 			}
@@ -278,7 +283,9 @@ func c17Batcher(c *Ctx, bt *ssa.Function) {
 		}
 		if b, ok := cc.Value.(*ssa.Builtin); ok && b.Name() == "append" {
 			t := p.TermOf(cc.Args[0])
-			e := p.TermOf(cc.Args[1])
+			// what is appended, with structs built on the spot described by their content (the signed
+			// snapshot may be assembled inline from the received snapshot)
+			e := p.materialise(p.TermOf(cc.Args[1]), bt, 0)
 			if t.IsField("Snapshots", nil) && e.Has(func(x *Term) bool { return x.Op == "select" }) {
 				app = in
 			}
